@@ -284,6 +284,16 @@ Section Eval.
     let np := notice_pkt self u in
     if passes_with rules np then [(np, Some u)] else [].
 
+  (* the packet judged by [r1], the notice it may cause — another packet — by [r2] (the rule
+     set can be replaced in between) *)
+  Definition node_handle2_with (self : text) (r1 r2 : list prule) (p : pkt) : list (pkt * option unreach_msg) :=
+    match handle_with r1 p with
+    | DProceed => [(p, None)]
+    | DDrop => []
+    | DReject None => []
+    | DReject (Some u) => emit_with self r2 u
+    end.
+
   (* handleMessageData to the end, for a packet that is not a local ping-to-self: after the
      firewall the packet is delivered (listener / reserved service "unreach"), answered (reserved
      service "ping": the reply is a packet this node originates), refused with "service unknown"
@@ -486,6 +496,21 @@ Inductive parse_obs := ObsOk | ObsErr | ObsPanic.
 
 Definition table := list (text * option re).
 
+(* monomorphic spellings of the pairs used in the case files (a pair or an option written with
+   the polymorphic notations costs the elaborator far more than it costs the evaluator) *)
+Definition TS (s : text) (r : re) : text * option re := (s, Some r).
+Definition TN (s : text) : text * option re := (s, None).
+Definition KV (k : rkey) (v : rval) : rkey * rval := (k, v).
+Definition RG (lo hi : N) : N * N := (lo, hi).
+Definition PK (p : pkt) (l : list fwresult) : pkt * list fwresult := (p, l).
+Definition OP (p : pkt) : pkt * option unreach_msg := (p, None).
+Definition ON (p : pkt) (u : unreach_msg) : pkt * option unreach_msg := (p, Some u).
+Definition ND (self : text) (p : pkt) (listening hops : bool) (out : list (pkt * option unreach_msg))
+  : text * pkt * (bool * bool) * list (pkt * option unreach_msg) := (self, p, (listening, hops), out).
+Definition PO (p : pkt) (out : list (pkt * option unreach_msg)) : pkt * list (pkt * option unreach_msg) := (p, out).
+Definition HI (rs : list raw_rule) (clear : bool) : list raw_rule * bool := (rs, clear).
+Definition NR (id : text) (rs : list raw_rule) : text * list raw_rule := (id, rs).
+
 Inductive fw_case :=
 (* ParseFirewallRules(rules): result class, and for every packet the result of each returned
    FirewallRuleFunc and of the loop of handleMessageData (the latter observed on a real node) *)
@@ -501,7 +526,7 @@ Inductive fw_case :=
 | CHist (tbl : table) (h : list (list raw_rule * bool)) (self : text)
         (nd : list (pkt * list (pkt * option unreach_msg)))
 (* rule sets A and B are installed alternately (clearExisting) while the packet is handled: the
-   outcome is that of A or that of B, never a mixture *)
+   packet is judged by A or by B as a whole, and so is the notice it may cause *)
 | CEither (tbl : table) (a b : list raw_rule) (self : text) (p : pkt)
           (out : list (pkt * option unreach_msg))
 (* the receptor binary running with these rules is asked to ping itself *)
@@ -564,8 +589,9 @@ Definition fw_check_with (pr : (text -> option re) -> list raw_rule -> pres (lis
     end
   | CEither tbl a b self p out =>
     match pr (lookup tbl) a, pr (lookup tbl) b with
-    | POk ra, POk rb => beq_list beq_out (node_handle_with rm self ra p) out
-                        || beq_list beq_out (node_handle_with rm self rb p) out
+    | POk ra, POk rb =>
+      existsb (fun xy => beq_list beq_out (node_handle2_with rm self (fst xy) (snd xy) p) out)
+              [(ra, ra); (ra, rb); (rb, ra); (rb, rb)]
     | _, _ => false
     end
   | CPing tbl rules self eph o =>
